@@ -7,13 +7,15 @@
 (* Checked for EVERY bipartite graph with NL x NR vertices and every resolution of the      *)
 (* nondeterminism: the matching is always valid, the machine can never get stuck before     *)
 (* Finish (deadlock check on), and at Finish the matching is maximum (Berge).               *)
-EXTENDS Matching, TLC
-CONSTANTS NL, NR
+EXTENDS Matching, TLC, Randomization
+CONSTANTS NL, NR, K, Dens
 VARIABLES E, M, pc
 vars == <<E, M, pc>>
 AllEdges == (1..NL) \X (1..NR)
 
 Init == E \in SUBSET AllEdges /\ M = {} /\ pc = "greedy"
+(* larger vertex sets than can be enumerated: K random graphs with about Dens edges each (cfg: INIT InitSample) *)
+InitSample == E \in RandomSetOfSubsets(K, Dens, AllEdges) /\ M = {} /\ pc = "greedy"
 
 Greedy == /\ pc = "greedy"
           /\ \E M2 \in SUBSET E : IsMatching(M2, E) /\ IsMaximal(M2, E) /\ M' = M2
